@@ -26,6 +26,10 @@ def run(ctx):
     # requested: kept when the volume is omitted, the requested value otherwise (C06's per-case rules on modify_order)
     from .c06 import modify_rules, _Prefixed
     modify_rules(_Prefixed(ctx, "conservation-modify-"), m, with_typestate=False)
+    # .. and the fills an operation applies to its working copy of the order must reach the order table: every path that
+    # modifies the copy stores it back (otherwise the record keeps its old volume while its fills are in the ledger)
+    from .c02 import writeback
+    writeback(_Prefixed(ctx, "conservation-"), m)
     # "whose limits both admit the trade price": a fill happens only inside a matching loop whose condition tests the aggressor's
     # limit against the CURRENT best price of the passive side (the passive order is the head at that price: K5 / call sites)
     from .c01 import matching_loop_rules
